@@ -382,7 +382,7 @@ func checkDecode(c *facet.Ctx, in DecCase) error {
 	switch class {
 	case MustErr:
 		if err == nil {
-			return facet.Failf("accepted", "FromCtyValue(%#v, *%s) succeeded (stored %+v); an error is required: %s", cv, rt, target.Elem().Interface(), rs).With("reasons", rs)
+			return facet.Failf("accepted", "FromCtyValue(%#v, *%s) succeeded (stored %s); an error is required: %s", cv, rt, dumpGo(target.Elem()), rs).With("reasons", rs)
 		}
 	case MustOK:
 		if err != nil {
@@ -390,7 +390,7 @@ func checkDecode(c *facet.Ctx, in DecCase) error {
 		}
 		if in.Dirty == nil {
 			if d := matchExpect(target.Elem(), exp, "$"); d != "" {
-				return facet.Failf("stored-wrong", "FromCtyValue(%#v, *%s) stored %+v: %s", cv, rt, target.Elem().Interface(), d)
+				return facet.Failf("stored-wrong", "FromCtyValue(%#v, *%s) stored %s: %s", cv, rt, dumpGo(target.Elem()), d)
 			}
 		}
 	}
@@ -506,9 +506,9 @@ func genDecode(wild bool) func(t *rapid.T) DecCase {
 func init() {
 	for _, name := range familyNames {
 		name := name
-		quick, thorough := 3000, 40000
+		quick, thorough := 3000, 25000
 		if nesting(family[name]) >= 2 {
-			quick, thorough = 6000, 80000
+			quick, thorough = 6000, 50000
 		}
 		facet.Register(facet.F[RT]{
 			Prop: "C18", Name: "roundtrip/" + name, Rule: rtRule, Quick: quick, Thorough: thorough, Shards: 2,
@@ -519,7 +519,7 @@ func init() {
 
 	facet.Register(facet.F[NumCase]{
 		Prop: "C18", Name: "numeric/boundary-table",
-		Rule: "EXHAUSTIVE table: for every integer width boundary (+-2^7, 2^8, +-2^15, 2^16, +-2^31, 2^32, +-2^63, 2^64) the values b-2..b+2, each whole, with .5 and with a 1e-21 fraction; 0, -0, small fractions, 2^53+-1, 2^70, 1e40, 1e+-400, +-Inf; the float32 and float64 maxima, MaxFloat+ulp/2 (first value that overflows under IEEE rounding) and their neighbours, smallest subnormals and halves of them; every applicable construction route (parsed decimal, NumberIntVal, NumberUIntVal, NumberFloatVal, big.Float at 24/64 bits) x every numeric target (10 integer widths, float32/64, pointers to each, 3 named types, big.Int, big.Float and pointers). Every case counts; distinct = target, exact value, route.",
+		Rule:       "EXHAUSTIVE table: for every integer width boundary (+-2^7, 2^8, +-2^15, 2^16, +-2^31, 2^32, +-2^63, 2^64) the values b-2..b+2, each whole, with .5 and with a 1e-21 fraction; 0, -0, small fractions, 2^53+-1, 2^70, 1e40, 1e+-400, +-Inf; the float32 and float64 maxima, MaxFloat+ulp/2 (first value that overflows under IEEE rounding) and their neighbours, smallest subnormals and halves of them; every applicable construction route (parsed decimal, NumberIntVal, NumberUIntVal, NumberFloatVal, big.Float at 24/64 bits) x every numeric target (10 integer widths, float32/64, pointers to each, 3 named types, big.Int, big.Float and pointers). Every case counts; distinct = target, exact value, route.",
 		Exhaustive: boundaryTable,
 		Check:      func(c *facet.Ctx, in NumCase) error { return checkNum(c, in, true) },
 	})
@@ -527,7 +527,7 @@ func init() {
 	facet.Register(facet.F[NumCase]{
 		Prop: "C18", Name: "numeric/random",
 		Rule:  "number x EVERY numeric target of the family (31 per case); half of the numbers are drawn relative to one target (integer bounds +-2 with optional fraction; for floats: around MaxFloat, MaxFloat+ulp/2, float32 midpoints +- tiny, subnormals), half from the shared class generator (all routes, huge, fractions, infinities). Non-trivial: for some target the number is within 2 of an integer bound, above half the float maximum, not whole, infinite, or not exactly representable in a float target. Distinct = exact value and route.",
-		Quick: 25000, Thorough: 250000, Shards: 8,
+		Quick: 25000, Thorough: 120000, Shards: 8,
 		Gen:   genNumCase,
 		Check: func(c *facet.Ctx, in NumCase) error { return checkNum(c, in, false) },
 	})
@@ -535,7 +535,7 @@ func init() {
 	facet.Register(facet.F[DecCase]{
 		Prop: "C18", Name: "errors/unknown-null-shape",
 		Rule:  "unmarked cty value x family target, compared with a reference decoder written from the property and docs/gocty.md (must-succeed with the expected stored value / must-fail / grey). Values: of the target's own type with nulls and unknowns at any depth (30%), of a one-position mutant of that type (20%), tuples shaped after the target struct's fields or random small tuples (20%), independent (30%). Non-trivial: an error is required, or value depth >= 2, or target nesting >= 2. Distinct = hash of the input JSON.",
-		Quick: 40000, Thorough: 500000, Shards: 8,
+		Quick: 40000, Thorough: 250000, Shards: 8,
 		Gen:   genDecode(false),
 		Check: checkDecode,
 	})
@@ -543,7 +543,7 @@ func init() {
 	facet.Register(facet.F[DecCase]{
 		Prop: "C18", Name: "nopanic",
 		Rule:  "unmarked cty value of any type to depth 3 (dynamic, capsules, sets, refined unknowns, nulls) or tuples x family target, half of the targets already populated with another value; asserts no panic, and error/success per the reference decoder. Non-trivial as in errors/unknown-null-shape.",
-		Quick: 40000, Thorough: 500000, Shards: 8,
+		Quick: 40000, Thorough: 250000, Shards: 8,
 		Gen:   genDecode(true),
 		Check: checkDecode,
 	})
